@@ -223,6 +223,17 @@ def main() -> int:
             rest = [h for h in hists if h not in core]
             hists = core + rng.sample(rest, min(len(rest), 1500))
         n_obs = check_histories(rep, hists, ex, cold, "exhaustive histories (length <= 3)", traces)
+        # set_size then a dependent mutation: the reset of the mutation must reach the rebuilt caches
+        ss_hists = []
+        for o in CP.OBS:
+            ks = sorted(k for k in deps[o] if k != "ca.set_size")
+            for k in ks[:2]:
+                v = [x for x in CP.KNOBS[k]["vals"] if x != 0][0]
+                ss_hists.append([{"op": "mutate", "knob": "ca.set_size", "val": 1}, {"op": "observe", "obs": o},
+                                 {"op": "mutate", "knob": k, "val": v}, {"op": "observe", "obs": o}])
+                ss_hists.append([{"op": "observe", "obs": o}, {"op": "mutate", "knob": "ca.set_size", "val": 2},
+                                 {"op": "mutate", "knob": k, "val": v}, {"op": "observe", "obs": o}])
+        n_obs += check_histories(rep, ss_hists, ex, cold, "set_size histories", traces)
         rep.set("histories_exhaustive", len(hists))
         # long random histories
         nlong = 600 if thorough else 120
